@@ -153,21 +153,14 @@ impl Engine for C07 {
         // "... and nothing else" must hold whatever an earlier count left in the
         // directory: sometimes start from stale chunk files and a stale table
         let dirty = case.params.get("dirty").and_then(|v| v.as_u64()).unwrap_or(0);
-        if dirty != 0 {
-            let mut r = Rng::new(dirty);
-            let parts = cfg.expected_parts(case.records.iter().map(|x| x.seq.len()).sum()) + 2;
-            for _ in 0..r.usize(1, 12) {
-                let p = r.range(0, parts);
-                let c = r.range(0, 6);
-                let mut body = String::new();
-                for _ in 0..r.usize(0, 5) {
-                    body.push_str(&format!("{}\t{}\n", r.below(1u64 << (2 * cfg.k.min(31))), r.range(1, 9)));
-                }
-                std::fs::write(out_dir.join(format!("temp_kmers.part_{p}_chunk_{c}")), body).unwrap();
-            }
-            if r.chance(1, 2) {
-                std::fs::write(out_dir.join("kmers.counts"), "1\t99\n2\t7\n").unwrap();
-            }
+        let parts = cfg.expected_parts(case.records.iter().map(|x| x.seq.len()).sum()) + 2;
+        // (only computed when needed: the k-mers of the first few records)
+        let real: Vec<u64> = if dirty != 0 {
+            case.records.iter().take(8).flat_map(|r| model::canonical_kmers(r.seq.as_bytes(), cfg.k).into_iter().take(64)).collect()
+        } else {
+            Vec::new()
+        };
+        if stale_counter_files(&out_dir, dirty, parts, cfg.k, &real) {
             out.probe("dirty_output_directory", 1);
         }
         let r = run_counter(&in_path, &out_dir, &cfg, &case.sched, &case.io, None, steps_for(case));
